@@ -288,8 +288,10 @@ func (r *remoteReplicator) Replica(idx int64, msg []byte) {
 		r.SetAckIndex(resp.AckIndex)
 		r.statistics.AckSequence.Incr()
 	} else {
-		// TODO: need reset ack sequence?
+		// the follower did not append the offered index (its next index differs, or its append failed):
+		// leave the ready state so that the next IsReady re-runs the handshake and re-aligns the replica index.
 		r.statistics.InvalidAckSequence.Incr()
+		r.state.Store(&state{state: models.ReplicatorFailureState, errMsg: "invalid ack sequence, need re-sync replica index"})
 	}
 }
 
